@@ -358,6 +358,9 @@ def handle(ctx, fails, cases, verdicts, kind):
             key = "crosstab:call-raised:%s" % case["error"].split(":")[0]
             if NINF in case["z"] and case["dim"] == 3 and "zero-size" in case["error"]:
                 key = "crosstab:neginf-zone"       # slices shifted by -inf cells can lose all their valid values
+            elif NINF in case["z"] and case["dim"] == 3:
+                # since 7d7d291 _sort_and_stride assigns the shortened row into the full-width 3-D buffer
+                key = "crosstab:neginf-zone-3d-raises"
             fails.add(key, "call_raised", case,
                       case["error"][:160] + " " + desc)
             continue
